@@ -40,9 +40,66 @@ def obj_class():
     global _CLS
     if _CLS is not None:
         return _CLS
+    import functools
     from qmi.core.rpc import QMI_RpcObject, rpc_method
 
-    class C02Obj(QMI_RpcObject):
+    def traced(fn):
+        """functools.wraps-style decorator: the wrapper inherits fn.__dict__, i.e. keeps the RPC marker"""
+        @functools.wraps(fn)
+        def wrapper(*a, **k):
+            return ("traced", fn(*a, **k))
+        return wrapper
+
+    class C02Base(QMI_RpcObject):
+        """every KIND of member an interface can advertise is defined once here (inherited) and once in the subclass"""
+
+        @rpc_method
+        def k_inherited(self, *args, **kwargs):
+            return ("k_inherited", args, kwargs)
+
+        @rpc_method
+        def k_overridden(self, *args, **kwargs):
+            return ("base-version", args, kwargs)
+
+        @staticmethod
+        @rpc_method
+        def k_static_inherited(*args, **kwargs):
+            return ("k_static_inherited", args, kwargs)
+
+    class C02Obj(C02Base):
+        @rpc_method
+        def k_overridden(self, *args, **kwargs):
+            return ("k_overridden", len(args), args, kwargs)
+
+        @staticmethod
+        @rpc_method
+        def k_static(*args, **kwargs):
+            return ("k_static", len(args), args, kwargs)
+
+        @rpc_method
+        @staticmethod
+        def k_static_marker_outside(*args, **kwargs):
+            return ("k_static_marker_outside", len(args), args, kwargs)
+
+        @staticmethod
+        @rpc_method
+        def k_static_fixed(a, b=2, *rest, c=3, **kw):
+            return ("k_static_fixed", a, b, rest, c, kw)
+
+        @rpc_method
+        def k_kwonly(self, a, b=2, *rest, c, d=4, **kw):
+            return ("k_kwonly", a, b, rest, c, d, kw)
+
+        @rpc_method
+        @traced
+        def k_wrapped_inner(self, *args, **kwargs):
+            return ("k_wrapped_inner", len(args), args, kwargs)
+
+        @traced
+        @rpc_method
+        def k_wrapped_outer(self, *args, **kwargs):
+            return ("k_wrapped_outer", len(args), args, kwargs)
+
         def __init__(self, context, name):
             super().__init__(context, name)
             self._n = 0
@@ -161,7 +218,34 @@ def _kwnames(rng, n):
     return rng.sample(KW_POOL, n)
 
 
+KIND_METHODS = ["k_inherited", "k_overridden", "k_static_inherited", "k_static", "k_static_marker_outside", "k_static_fixed",
+                "k_kwonly", "k_wrapped_inner", "k_wrapped_outer"]
+_ADVERTISED_KINDS = None
+
+
+def advertised_kinds():
+    """the member kinds that make_interface_descriptor advertises on this tree (whatever is advertised must behave like
+    the direct call obj.m(*a, **k))"""
+    global _ADVERTISED_KINDS
+    if _ADVERTISED_KINDS is None:
+        names = set(method_names())
+        _ADVERTISED_KINDS = [m for m in KIND_METHODS if m in names]
+    return _ADVERTISED_KINDS
+
+
+def gen_kind_call(rng, qn, m=None):
+    gv = lambda d=1: V.gen_value(rng, d, qmi_names=qn)  # noqa
+    m = m or rng.choice(advertised_kinds())
+    a = [gv() for _ in range(rng.choice([0, 1, 1, 2, 2, 3, 4]))]
+    k = [[n, gv()] for n in rng.sample(["x", "y", "c", "d", "zeta"], rng.choice([0, 0, 1, 2]))]
+    if m == "k_kwonly" and rng.random() < 0.8 and not any(n == "c" for n, _ in k):
+        k.append(["c", gv()])
+    return {"m": m, "a": a, "k": k}
+
+
 def gen_call(rng, qn, big=False):
+    if rng.random() < 0.14 and advertised_kinds():
+        return gen_kind_call(rng, qn)
     gv = lambda d=2: V.gen_value(rng, d, qmi_names=qn, big=big)  # noqa
     m = rng.choices(["echo", "ident", "shape", "pick", "combine", "describe", "raise_it", "raise_new", "accumulate",
                      "state", "tagged", "zz_last"], weights=[26, 10, 16, 5, 8, 5, 12, 6, 8, 2, 2, 1])[0]
@@ -965,6 +1049,13 @@ def run_corpus(seed, real_tcp=False):
         def callnb(p, m, *a, **k):
             f = _outcome(lambda: T.call_stub(trace, pids[1], p.rpc_nonblocking, m, a, k))
             return f if f[0] == "exc" else _outcome(f[1].wait)
+        # ---- every kind of member the interface advertises (static, inherited, overridden, keyword-only, wrapped) ---------
+        p, q, r = mk("kinds")
+        for m in advertised_kinds():
+            for a, k in (((), {}), ((1,), {}), ((1, 2), {"c": 3}), ((1, 2, 3, 4), {"c": 5, "zeta": 6}), ((), {"c": 1, "a": 2})):
+                d = _outcome(lambda: getattr(new_direct(), m)(*a, **k))
+                checks.append((f"member-kind:local:{m}{len(a)}+{len(k)}", d, call(p, m, *a, **k)))
+                checks.append((f"member-kind:peer:{m}{len(a)}+{len(k)}", d, callnb(r, m, *a, **k)))
         locked = ("exctype", QMI_RuntimeException)
         # ---- locks: the token both stubs forward is the one lock() obtained -------------------------------------
         for who in ("local", "peer"):
@@ -1387,6 +1478,107 @@ def history_oracle(plan, records, trace, info):
         else:
             if not (out[0] == "exc" and type(out[1]) is QMI_RuntimeException and "locked" in str(out[1])):
                 return "incompatible-call-not-refused", f"{where}: object locked with {lock}, call carried {reqtok}: {out!r:.200}"
+    return None
+
+
+# ---------------------------------------------------------------------------
+# a departed client's method is still EXECUTING when the next client calls: nobody may inherit its reply
+# ---------------------------------------------------------------------------
+
+def gen_inherit_plan(rng, seed):
+    n_dep = rng.randint(1, 3)
+    return {"seed": seed, "policy": rng.choice(["weighted", "pct"]), "stayer": rng.random() < 0.4,
+            "departed": [{"name": rng.choice(["cli", "ca"]), "holds": rng.randint(1, 2)} for _ in range(n_dep)],
+            "newcomers": [{"name": rng.choice(["cli", "cb"]), "holds": rng.randint(1, 3)} for _ in range(rng.randint(1, 2))],
+            "leave_order": rng.sample(range(n_dep), n_dep)}
+
+
+def run_inherit(plan, real_tcp=False):
+    """Clients A1..An each start hold() calls (parked behind a closed gate) and disconnect; fresh clients B.. connect with
+    the same call sequence (so their context-local future names coincide with the departed clients') and start their own
+    hold() calls; only then the gate opens, so the departed clients' methods finish FIRST.  Every value names its call.
+    Returns (records, info); record = dict(who, tag, outcome, departed)."""
+    records = []
+
+    def body(w):
+        import threading
+        from harness import detsched as D
+        sim = not real_tcp
+
+        def quiesce():
+            if sim:
+                D.TIME_SHIM.sleep(0.01)
+            else:
+                import time as _t
+                _t.sleep(0.2)
+        srv = w.context("srv", server=True)
+        srv.make_rpc_object("slow", slow_class())
+        gate = D.Event() if sim else threading.Event()
+        _GATE[0] = gate
+        waits = []
+
+        def join(label, cfg, departed):
+            ctx = w.context(cfg["name"])
+            w.connect(ctx, srv)
+            p = ctx.get_rpc_object_by_name("srv.slow")
+            for j in range(cfg["holds"]):
+                tag = f"{label}.call{j}"
+                rec = {"who": label, "tag": tag, "outcome": None, "departed": departed}
+                records.append(rec)
+                f = _outcome(lambda: p.rpc_nonblocking.hold(tag))
+                waits.append((rec, f))
+            return ctx
+        if plan.get("stayer"):
+            join("stayer", {"name": "cs", "holds": 1}, False)
+        gone = [join(f"departed{i}", cfg, True) for i, cfg in enumerate(plan["departed"])]
+        quiesce()                                  # the first hold() is executing (parked on the gate), the others queue
+        for i in plan["leave_order"]:
+            gone[i].disconnect_from_peer("srv")
+            quiesce()                              # the server has noticed
+        for i, cfg in enumerate(plan["newcomers"]):
+            join(f"newcomer{i}", cfg, False)
+        quiesce()
+        gate.set()                                 # now the departed clients' methods finish first, then the newcomers'
+        for rec, f in waits:
+            rec["outcome"] = f if f[0] == "exc" else _outcome(lambda: f[1].wait(120.0 if sim else 30.0))
+        _GATE[0] = None
+        return True
+
+    if real_tcp:
+        info = _run_real(body)
+    else:
+        from harness.simworld import run_scenario
+        out = run_scenario(plan["seed"], body, policy=plan.get("policy", "weighted"))
+        info = {"deadlock": out.deadlock, "budget": out.budget, "error": out.error,
+                "thread_errors": out.thread_errors, "loop_exceptions": list(out.net.loop_exceptions) if out.net else []}
+    g = _GATE[0]
+    _GATE[0] = None
+    if g is not None and real_tcp:
+        g.set()
+    return records, info
+
+
+def inherit_oracle(plan, records, info):
+    from qmi.core.exceptions import QMI_MessageDeliveryException
+    first = None
+    for r in records:
+        out = r["outcome"]
+        if out is None:
+            continue
+        if compare(("val", ("held", r["tag"])), out) is None:
+            continue
+        if r["departed"] and out[0] == "exc" and isinstance(out[1], QMI_MessageDeliveryException):
+            continue
+        if out[0] == "val" and any(q["tag"] in repr(out[1]) for q in records if q is not r):
+            return "foreign-outcome", f"{r['tag']} received {out[1]!r:.120}: the outcome of another client's call"
+        first = first or ("wrong-outcome", f"{r['tag']} got {out[0]} {out[1]!r:.200}")
+    missing = [r["tag"] for r in records if r["outcome"] is None]
+    if info.get("deadlock") or info.get("budget") or missing:
+        return "no-outcome", f"calls without outcome: {missing[:5]}; {str(info.get('deadlock'))[:200]}"
+    if first:
+        return first
+    if info.get("error") is not None:
+        return "scenario-error", repr(info["error"])[:300]
     return None
 
 
@@ -1981,6 +2173,25 @@ class C02(Prop):
                                             {"kind": "corpus", "seed": seed, "real_tcp": real_tcp}))
             self._add_trace(res, trace, {"kind": "corpus", "seed": seed, "real_tcp": real_tcp}, lines, outs, spans)
 
+    def _inherit(self, ctx, res, n, seen, real_tcp=False):
+        rng = ctx.rng
+        fixed = [{"seed": 1, "policy": "weighted", "stayer": False, "departed": [{"name": "ca", "holds": 1}],
+                  "newcomers": [{"name": "cb", "holds": 1}], "leave_order": [0]},
+                 {"seed": 2, "policy": "pct", "stayer": True, "departed": [{"name": "cli", "holds": 2}, {"name": "cli", "holds": 1}],
+                  "newcomers": [{"name": "cli", "holds": 2}], "leave_order": [0, 1]}] if not real_tcp else []
+        for k in range(len(fixed) + n):
+            plan = fixed[k] if k < len(fixed) else gen_inherit_plan(rng, rng.randrange(1 << 30))
+            records, info = run_inherit(plan, real_tcp=real_tcp)
+            r = inherit_oracle(plan, records, info)
+            res.note_case(("inherit", json.dumps(plan, sort_keys=True)))
+            res.count("departed_client_still_executing_scenarios" + ("_tcp" if real_tcp else ""))
+            res.count("departed_client_calls", len(records))
+            if r and f"departed:{r[0]}" not in seen:
+                seen[f"departed:{r[0]}"] = 1
+                res.failures.append(Failure(f"departed:{r[0]}", f"departed clients {plan['departed']} leave in order {plan['leave_order']} with "
+                                            f"their methods still executing, newcomers {plan['newcomers']}: {r[1][:300]}",
+                                            {"kind": "inherit", "plan": plan, "real_tcp": real_tcp}))
+
     def _histories(self, ctx, res, n, seen, lines, outs, spans, real_tcp=False):
         rng = ctx.rng
         qn = V.qmi_exception_names()
@@ -2238,6 +2449,7 @@ class C02(Prop):
             # thread race on the peer map — `send` may or may not still see the connection — so those scenarios are
             # judged by the outcome oracle only; the quiescent-churn ones are also replayed on the Lean model.)
             self._churn(ctx, res, ctx.scale(70, 700), seen, lines, outs, spans, thorough=not ctx.quick)
+            self._inherit(ctx, res, ctx.scale(40, 400), seen)
             ctx.log(f"client churn scenarios done ({len(lines)} trace lines)")
             self._diff(res, lines, outs, spans)
             # many futures outstanding at once in one context (address uniqueness far beyond a handful of callers)
@@ -2256,6 +2468,7 @@ class C02(Prop):
                 self._corpus(ctx, res, seen, lines, outs, spans, real_tcp=True)
                 self._timeouts(ctx, res, 15, seen, lines, outs, spans, real_tcp=True)
                 self._histories(ctx, res, 20, seen, lines, outs, spans, real_tcp=True)
+                self._inherit(ctx, res, 6, seen, real_tcp=True)
                 ctx.log("real loopback TCP scenarios done")
                 self._diff(res, lines, outs, spans)
         res.extra["occurrences_per_failure_signature"] = dict(seen)
@@ -2279,7 +2492,7 @@ class C02(Prop):
                     for f in eval_script(c["plan"], vs, c.get("real_tcp", False)):
                         self._note_failure(res, seen, c["plan"], f[0], f[1], f[2], f[3], c.get("real_tcp", False))
                     res.note_case(("case", json.dumps(c["plan"], sort_keys=True)))
-                elif c.get("kind") in ("corpus", "timeout", "size", "burst", "history"):
+                elif c.get("kind") in ("corpus", "timeout", "size", "burst", "history", "inherit"):
                     f = self.replay(ctx, c)
                     res.note_case(("case", json.dumps(c, sort_keys=True, default=repr)))
                     if f is not None and f.signature not in seen:
@@ -2300,6 +2513,8 @@ class C02(Prop):
                     if r:
                         res.failures.append(Failure(f"concurrent:{r[0]}", r[1][:400], {"kind": "conc", "plan": c["plan"],
                                                                                         "real_tcp": c.get("real_tcp", False)}))
+            # systematic sweep 00: departed clients whose methods are still executing when newcomers call
+            self._inherit(ctx, res, ctx.scale(150, 600), seen)
             # systematic sweep 0: every limit in the live code, more lowered limits
             lines0, outs0, spans0 = [], [], []
             self._limits(ctx, res, seen, lines0, outs0, spans0)
@@ -2369,6 +2584,9 @@ class C02(Prop):
                 checks, _, _, info = run_corpus(rp["seed"], real_tcp=rp.get("real_tcp", False))
                 r = checks_oracle(checks, info)
                 return Failure(f"corpus:{r[0]}", r[1][:600], rp) if r else None
+            if rp.get("kind") == "inherit":
+                r = inherit_oracle(rp["plan"], *run_inherit(rp["plan"], real_tcp=rp.get("real_tcp", False)))
+                return Failure(f"departed:{r[0]}", r[1][:600], rp) if r else None
             if rp.get("kind") == "history":
                 r = history_oracle(rp["plan"], *run_history(rp["plan"], real_tcp=rp.get("real_tcp", False)))
                 return Failure(f"history:{r[0]}", r[1][:600], rp) if r else None
